@@ -603,6 +603,9 @@ class Manager:
             _verif_tracer('dispatch', self, event, channels, remaining)
 
         if event.cancelled:
+            # It will never be handled, but whoever tracks its completion
+            # must not wait for it.
+            self._effectDone(event)
             return
 
         if event.complete:
@@ -712,6 +715,9 @@ class Manager:
             channels = getattr(event, 'success_channels', event.channels)
             self.fire(event.child('success', event, event.value.value), *channels)
 
+        self._effectDone(event)
+
+    def _effectDone(self, event):
         while True:
             # cause attributes indicates interest in completion event
             cause = getattr(event, 'cause', None)
